@@ -42,6 +42,12 @@ pub fn gen_library(r: &mut Rng, with_known_features: bool) -> Vec<(String, Strin
                     break;
                 }
             }
+            // what some editors put at the start of a file: the byte order mark belongs to the first line
+            // (root notes only: with the mark a leading block reference is an inline link, and inline links of notes in
+            // sub-directories are finding D12)
+            if r.chance(1, 12) && !k.contains('/') {
+                text = format!("\u{feff}{}", text);
+            }
             (k.clone(), text)
         })
         .collect()
